@@ -196,6 +196,16 @@ def gen_C03(chk):
             k = max(gen.quant_depth(f) for f in batch)
             # dirty results: bitwise over every valuation of the spare bits as well
             chk.add_eval(net, k + (1 if len(props) <= 2 else 0), "", batch, tag="dirty1", netname=nm)
+        # quantifiers over empty / partly empty domains reaching the result through operators
+        # that do not intersect with the unit again
+        p0 = gen.T("P", props[0])
+        for q in gen.QUANTS:
+            core = ("H", q, "x", "d", ("H", "Jump", "x", None, ("U", "AX", gen.T("V", "x"))))
+            core2 = ("H", q, "x", "d", p0)
+            fs = [core, ("B", "Or", core, gen.T("0")), ("U", "EF", core), ("U", "EX", core2),
+                  ("B", "EU", p0, core2), ("H", "Exists", "y", None, core), ("B", "AU", gen.T("1"), core)]
+            for spec in ["e", "k%d.1.2" % rng.randint(1, 999), "R%d.1.2" % rng.randint(1, 999)]:
+                chk.add_eval(net, 2, "e", fs, ctx=[("d", spec)], tag="emptydom", netname=nm)
         for j in range(40 if thorough(chk) else 12):
             ext = rng.random() < 0.4
             f = gen.random_formula(rng, rng.randint(2, 8), props, max_vars=2,
@@ -557,6 +567,19 @@ def gen_C12(chk):
                                                          (("U", "AG", ("U", "EF", gen.T("V", "x"))) if pat is attr else ("U", "AX", gen.T("V", "x"))))), None))
             contexts.append((("H", "Bind", "x", "d", t[4]), None))
             contexts.append((("H", "Bind", "x", None, ("U", "Not", t[4])), None))
+        # the pattern repeated across scopes with different restrictions (shared cache entries)
+        for pat in (attr, steady):
+            for q in gen.QUANTS:
+                f1 = ("H", q, "x", "d", ("H", "Jump", "x", None, pat("y")))
+                f2 = pat("x")
+                f3 = ("H", rng.choice(gen.QUANTS), "x", "d2", ("H", "Jump", "x", None, pat("y")))
+                f4 = ("H", q, "x", "d", ("B", "And", ("U", "EX", gen.T("V", "x")), pat("y")))
+                combos = [[f1, f2], [f1, f3], [f4, f2, f1], [("B", "And", f1, f3)], [("B", "Or", f4, f2)],
+                          [("B", "And", f1, ("U", "EF", f2))]]
+                for fs in combos:
+                    ctx = [("d", ctx_spec(rng)), ("d2", ctx_spec(rng))]
+                    kk = max(gen.quant_depth(f) for f in fs)
+                    chk.add_eval(net, kk, "es", fs, ctx=ctx, tag="pattern-shared", netname=nm)
         for a, b in contexts:
             ext = bool(gen.labels_of(a)[1])
             for rep in range(2 if thorough(chk) else 1):
